@@ -57,8 +57,13 @@ def check_case(acc: Acc, case):
     transport, T, R = case["transport"], case["T"], case["R"]
     if not is_trivial(case):
         acc.nontrivial(transport, case.get("keep"), T, R, repr(case["script"]), repr(case.get("connect")),
-                       case.get("latency", 0), case.get("api", False), case.get("host"))
-    obs = netcase.run_single(case)
+                       case.get("latency", 0), case.get("api", False), case.get("host"), repr(case.get("payload")))
+    payload_fn = None
+    if case.get("payload") and transport == "aa55":
+        # answers at the edges of the frame format: maximal payload length, all 0xFF (byte sum beyond 16 bits), all zero
+        fill, n = case["payload"]
+        payload_fn = (lambda cmd, payload, fill=fill, n=n: bytes((fill,)) * n)
+    obs = netcase.run_single(case, payload_fn=payload_fn)
     out = obs.outcome
     fails = []
     kind = out.kind()
@@ -169,6 +174,14 @@ def enum_job(job):
                 case = {"transport": transport, "keep": keep, "T": T, "R": R, "latency": 0, "steps": steps, "sequence": True}
                 _apply_seq(acc, case)
         return acc
+    if mode == "extreme-payload":
+        for payload in ([0xFF, 255], [0xFF, 254], [0xFE, 255], [0x00, 255], [0xFF, 200], [0x80, 255]):
+            for script in ([["answer", 2]], [["drop"], ["answer", 2]], [["bad", 4], ["answer", 2]], [["frag", 9, 2, 6]], [["frag", 200, 2, 6]], [["dup", 2, 5]],
+                           [["garbage", 3], ["answer", 14]]):
+                case = {"transport": transport, "keep": keep, "T": T, "R": R, "script": script, "latency": 0, "payload": payload}
+                _apply(acc, case)
+                _apply(acc, dict(case, api=True))
+        return acc
     if mode == "cuts":
         # every length of a first piece (1..16 bytes: shorter than, equal to and longer than each framing's header), alone,
         # followed by the remainder, or followed by a restart - on the first transmission and on a retransmission
@@ -276,6 +289,8 @@ def run(ctx):
     for transport in ("udp", "aa55", "tcp"):
         for keep in (False, True):
             jobs.append((transport, keep, 1.0, 1, "cuts"))
+    for keep in (False, True):
+        jobs.append(("aa55", keep, 1.0, 2, "extreme-payload"))
     for keep in (False, True):
         for R in (0, 1, 2):
             jobs.append(("tcp", keep, 1.0, R, "connect"))
